@@ -103,14 +103,19 @@ def _collectives(draw, nmin=1, nmax=8, cycles=True):
     if cycles and draw(st.booleans()):
         cyc = draw(st.lists(st.one_of(st.integers(0, 1000).map(float), st.floats(0.0, 1e6, allow_nan=False)), min_size=n, max_size=n))
     layout = draw(st.sampled_from(["plain", "named", "multi", "multi3"]))
-    return {"form": form, "a": a, "b": b, "cycles": cyc, "layout": layout}
+    ints = draw(st.integers(0, 3)) == 0
+    if ints:                                   # integer valued collective stored in int64 columns
+        a = [float(round(x)) + 0.0 for x in a]
+        b = [float(round(x)) + 0.0 for x in b]
+    return {"form": form, "a": a, "b": b, "cycles": cyc, "layout": layout, "int_dtype": ints}
 
 
 def _frame(case):
     n = len(case["a"])
     index, group_levels = _index(case["layout"], n)
     cols = ("from", "to") if case["form"] == "from_to" else ("range", "mean")
-    df = pd.DataFrame({cols[0]: np.array(case["a"], dtype=float), cols[1]: np.array(case["b"], dtype=float)}, index=index)
+    dt = np.int64 if (case.get("int_dtype") and all(float(x).is_integer() for x in case["a"] + case["b"])) else float
+    df = pd.DataFrame({cols[0]: np.array(case["a"], dtype=float).astype(dt), cols[1]: np.array(case["b"], dtype=float).astype(dt)}, index=index)
     if case["cycles"] is not None:
         df["cycles"] = np.array(case["cycles"], dtype=float)
     return df, group_levels
@@ -165,7 +170,8 @@ def collective_consistent(case, ctx):
     lc = df.load_collective
     fr, to = _from_to(case)
     amp, mean, up, lo, R = _model(fr, to)
-    ctx.label(case["form"], case["layout"], "cycles_column" if case["cycles"] is not None else "no_cycles_column")
+    ctx.label(case["form"], case["layout"], "cycles_column" if case["cycles"] is not None else "no_cycles_column",
+              "int64_columns" if str(df0.dtypes.iloc[0]).startswith("int") else "float_columns")
     if case["form"] == "from_to" and any(f > t for f, t in zip(fr, to)) and any(f < t for f, t in zip(fr, to)):
         ctx.label("both_orientations")
         ctx.nontrivial()
@@ -240,7 +246,7 @@ def collective_scale_shift(case, ctx):
     fr, to = _from_to(case)
     n = len(fr)
     kind, op = case["operand_kind"], case["op"]
-    ctx.label(op, kind, case["form"], case["layout"])
+    ctx.label(op, kind, case["form"], case["layout"], "int64_columns" if str(df0.dtypes.iloc[0]).startswith("int") else "float_columns")
     if kind == "scalar":
         operand = case["operand"][0]
         rows = [(i, operand, tuple(df0.index[i]) if isinstance(df0.index[i], tuple) else (df0.index[i],)) for i in range(n)]
@@ -301,9 +307,11 @@ def collective_scale_shift(case, ctx):
 
 # --------------------------------------------------------------------------- 3. LoadHistogram: derived quantities, scale, shift
 @st.composite
-def _edges(draw, lo=-50.0, hi=50.0, nmax=5, start=None):
+def _edges(draw, lo=-50.0, hi=50.0, nmax=5, start=None, force_int=False):
     n = draw(st.integers(1, nmax))
-    kind = draw(st.sampled_from(["int", "regular", "irregular"]))
+    kind = "int" if force_int else draw(st.sampled_from(["int", "regular", "irregular"]))
+    if force_int and start is not None:
+        start = float(round(start))
     if start is None:
         start = float(draw(st.integers(int(lo), int(hi)))) if kind == "int" else draw(st.floats(lo, hi, allow_nan=False)) + 0.0
     if kind == "int":
@@ -321,24 +329,32 @@ def _edges(draw, lo=-50.0, hi=50.0, nmax=5, start=None):
 @st.composite
 def _matrix_cases(draw, tier):
     kind = draw(st.sampled_from(["from_to", "range_mean", "range_only"]))
-    e1 = draw(_edges(start=0.0 if kind != "from_to" and draw(st.booleans()) else None, lo=0.0 if kind != "from_to" else -50.0))
-    e2 = draw(_edges()) if kind != "range_only" else None
+    # integer class edges (interval[int64]) are what LoadCollective.histogram([0, 2, 4, 6]) or pd.interval_range(0, 6, freq=2) give
+    ints = draw(st.integers(0, 2)) == 0
+    e1 = draw(_edges(start=0.0 if kind != "from_to" and draw(st.booleans()) else None, lo=0.0 if kind != "from_to" else -50.0, force_int=ints))
+    e2 = draw(_edges(force_int=ints)) if kind != "range_only" else None
     extra = draw(st.sampled_from(["none", "none", "node"]))
     ncls = (len(e1) - 1) * ((len(e2) - 1) if e2 else 1) * (2 if extra == "node" else 1)
     counts = draw(st.lists(st.one_of(st.integers(0, 1000).map(float), st.floats(0, 1e6, allow_nan=False)), min_size=ncls, max_size=ncls))
     op = draw(st.sampled_from(["none", "scale", "shift"]))
-    val = st.one_of(st.sampled_from([0.0, 1.0, 2.0, 0.5]), st.floats(0.0, 1e3, allow_nan=False))
-    sval = st.one_of(st.sampled_from([0.0, 1.0, -2.0]), st.floats(-1e3, 1e3, allow_nan=False).map(lambda x: x + 0.0))
+    val = st.one_of(st.sampled_from([0.0, 1.0, 2.0, 0.5, 1.25]), st.floats(0.0, 1e3, allow_nan=False))
+    sval = st.one_of(st.sampled_from([0.0, 1.0, -2.0, 0.5]), st.floats(-1e3, 1e3, allow_nan=False).map(lambda x: x + 0.0))
     per_node = extra == "node" and draw(st.booleans())
     operand = [draw(val if op == "scale" else sval) for _ in range(2 if per_node else 1)]
-    return {"kind": kind, "edges1": e1, "edges2": e2, "extra": extra, "counts": counts, "op": op, "operand": operand,
+    if ints and draw(st.booleans()):
+        counts = [float(int(min(c, 10**6))) for c in counts]
+    return {"kind": kind, "edges1": e1, "edges2": e2, "extra": extra, "counts": counts, "op": op, "operand": operand, "int_dtype": ints,
             "closed": draw(st.sampled_from(["right", "right", "left"])), "location": draw(st.sampled_from(["mid", "mid", "left", "right"]))}
 
 
 def _hist(case):
-    lv, names = [pd.IntervalIndex.from_breaks(case["edges1"], closed=case["closed"])], ["from" if case["kind"] == "from_to" else "range"]
+    def breaks(e):
+        if case.get("int_dtype") and all(float(x).is_integer() for x in e):
+            return np.array(e, dtype=np.int64)
+        return e
+    lv, names = [pd.IntervalIndex.from_breaks(breaks(case["edges1"]), closed=case["closed"])], ["from" if case["kind"] == "from_to" else "range"]
     if case["edges2"] is not None:
-        lv.append(pd.IntervalIndex.from_breaks(case["edges2"], closed=case["closed"]))
+        lv.append(pd.IntervalIndex.from_breaks(breaks(case["edges2"]), closed=case["closed"]))
         names.append("to" if case["kind"] == "from_to" else "mean")
     if case["extra"] == "node":
         lv.append(pd.Index([1, 2])); names.append("node")
@@ -346,7 +362,10 @@ def _hist(case):
         idx = pd.IntervalIndex(lv[0], name=names[0])
     else:
         idx = pd.MultiIndex.from_product(lv, names=names)
-    return pd.Series(np.array(case["counts"], dtype=float), index=idx, name="cycles")
+    counts = np.array(case["counts"], dtype=float)
+    if case.get("int_dtype") and all(float(c).is_integer() for c in case["counts"]):
+        counts = counts.astype(np.int64)
+    return pd.Series(counts, index=idx, name="cycles")
 
 
 def _loc(iv, where):
@@ -363,6 +382,12 @@ def histogram_consistent(case, ctx):
     ser0 = ser.copy()
     kind, where = case["kind"], case["location"]
     ctx.label(kind, "extra:" + case["extra"], "op:" + case["op"], "loc:" + where)
+    lv0 = ser.index.levels[0] if isinstance(ser.index, pd.MultiIndex) else ser.index
+    if str(lv0.dtype).startswith("interval[int"):
+        ctx.label("integer_class_edges")
+        if case["op"] != "none" and any(not float(x).is_integer() for x in case["operand"]):
+            ctx.label("integer_edges_non_integer_operand")
+            ctx.nontrivial()
     names = list(ser.index.names)
     multi = isinstance(ser.index, pd.MultiIndex)
 
@@ -809,7 +834,7 @@ def _target(draw, src_edges, kinds):
 
 @st.composite
 def _rebin_cases(draw, tier):
-    dims = draw(st.sampled_from([1, 1, 1, 2]))
+    dims = draw(st.sampled_from([1, 1, 2]))
     src, tg1, tg2, kinds = [], [], [], []
     for d in range(dims):
         e = draw(_edges(nmax=5 if dims == 1 else 3))
@@ -837,12 +862,29 @@ def _rebin_cases(draw, tier):
                            min_size=ncls, max_size=ncls))
     gaps = dims == 1 and len(src[0]) > 3 and draw(st.integers(0, 4)) == 0
     drop = draw(st.integers(1, len(src[0]) - 3)) if gaps else None
-    return {"dims": dims, "source": src, "target1": tg1, "target2": tg2, "kinds": kinds, "counts": counts,
+    # a second, finer histogram whose classes lie inside the classes of the first one: what combine_histogram() returns for
+    # histograms of different resolution (nested / overlapping classes in one histogram)
+    nested = None
+    if dims == 1 and not gaps and draw(st.integers(0, 2)) == 0:
+        e = src[0]
+        fine = list(e)
+        for a, b in zip(e[:-1], e[1:]):
+            for _ in range(draw(st.integers(0, 2))):
+                fine.append(a + (b - a) * draw(st.sampled_from([0.5, 0.25, 0.75, 0.375])))
+        fine = sorted(set(fine))
+        i = draw(st.integers(0, len(fine) - 2))
+        j = draw(st.integers(i + 1, len(fine) - 1))
+        fine = fine[i:j + 1]
+        fcounts = draw(st.lists(st.one_of(st.sampled_from([0.0, 1.0, 10.0]), st.integers(0, 10**6).map(float)),
+                               min_size=len(fine) - 1, max_size=len(fine) - 1))
+        nested = {"edges": fine, "counts": fcounts, "via": draw(st.sampled_from(["combine", "combine", "concat"]))}
+    return {"dims": dims, "source": src, "target1": tg1, "target2": tg2, "kinds": kinds, "counts": counts, "nested": nested,
+            "target_level_order": draw(st.sampled_from(["same", "swapped", "swapped"])),
             "closed": draw(st.sampled_from(["right", "right", "left"])), "nan_default": draw(st.sampled_from([False, False, True])),
-            "drop_class": drop, "binning_as_multiindex": draw(st.booleans()),
+            "drop_class": drop, "binning_as_multiindex": draw(st.sampled_from([True, True, False])),
             # a histogram is a mapping class -> count: its rows may be listed in any order (sort_values, concat, ...)
             "row_order": draw(st.sampled_from(["ascending", "ascending", "descending", "by_count", "permuted", "permuted"])),
-            "row_perm": draw(st.permutations(list(range(ncls))))}
+            "row_perm": draw(st.permutations(list(range(ncls + (len(nested["edges"]) - 1 if nested else 0)))))}
 
 
 def _ii(edges, closed, name=None):
@@ -855,7 +897,8 @@ def one_interval_class(binning):
 
 
 @subcheck("C14", "rebin_conserves", strategy=_rebin_cases, quick=1500, thorough=50000,
-          doc="rebin_histogram (1-D and 2-D, source rows ascending / descending / by count / permuted; target identical / one class / count / finer / coarser / wider / irregular): total conserved "
+          doc="rebin_histogram (1-D and 2-D, source rows ascending / descending / by count / permuted, source with nested classes made by "
+              "combine_histogram([coarse, fine]) or concat, 2-D MultiIndex targets with the levels in the histogram's or in swapped order; target identical / one class / count / finer / coarser / wider / irregular): total conserved "
               "(rtol 1e-12) when the target covers the source, identity for the same binning, rebin(rebin(h, b1), b2) == rebin(h, b2) "
               "(1e-9) where exact (b1 refines the source classes, or b2 coarsens b1)")
 def rebin_conserves(case, ctx):
@@ -870,13 +913,33 @@ def rebin_conserves(case, ctx):
     if case["drop_class"] is not None:
         h = h.drop(h.index[case["drop_class"]])
         ctx.label("source_with_gap")
+    nested = case.get("nested")
+    if nested:
+        from pylife.utils.histogram import combine_histogram
+        fine = pd.Series(np.array(nested["counts"], dtype=float), index=_ii(nested["edges"], closed, "range"), name="cycles")
+        grand = float(h.sum()) + float(fine.sum())
+        if nested["via"] == "combine":
+            h = combine_histogram([h, fine])
+            ctx.label("source_from_combine_histogram")
+        else:
+            fine = fine[[iv not in h.index for iv in fine.index]]       # no class twice in one histogram
+            grand = float(h.sum()) + float(fine.sum())
+            h = pd.concat([h, fine])
+            ctx.label("source_from_concat")
+        if abs(float(h.sum()) - grand) > 1e-12 * max(grand, 1.0):
+            raise Violation("combine_histogram changed the grand total %r -> %r" % (grand, float(h.sum())), bucket="rebin:combine_total")
+        lst = list(h.index)
+        if any(a is not b and a.overlaps(b) for a in lst for b in lst):
+            ctx.label("source_classes_nested")
+            ctx.nontrivial()
     order = case.get("row_order", "ascending")
     if order == "descending":
         h = h.iloc[::-1]
     elif order == "by_count":
         h = h.sort_values(ascending=False, kind="stable")
     elif order == "permuted":
-        h = h.iloc[[i for i in case["row_perm"] if i < len(h)]]
+        perm = [i for i in case["row_perm"] if i < len(h)]
+        h = h.iloc[perm + [i for i in range(len(h)) if i not in perm]]
     if len(h) > 1 and not h.index.equals(h.sort_index().index):
         ctx.label("source_rows_not_ascending")
         ctx.nontrivial()
@@ -889,8 +952,17 @@ def rebin_conserves(case, ctx):
         if any(isinstance(t, int) for t in tg):
             return next(t for t in tg if isinstance(t, int))
         if case["binning_as_multiindex"]:
+            if case.get("target_level_order", "same") == "swapped":
+                # the levels of the target are named: their order need not be the histogram's
+                return pd.MultiIndex.from_product([_ii(t, closed) for t in tg[::-1]], names=names[::-1])
             return pd.MultiIndex.from_product([_ii(t, closed) for t in tg], names=names)
         return _ii(tg[0], closed)           # one IntervalIndex for every dimension
+
+    def levels_of(b):
+        """the target binning of every histogram level, in the histogram's level order (looked up by name)"""
+        if isinstance(b, pd.MultiIndex):
+            return [b.levels[list(b.names).index(n)] for n in names]
+        return [b] * dims
 
     k1 = [k[0] for k in case["kinds"]]
     ctx.label("%dd" % dims, *["target:" + k for k in k1])
@@ -903,7 +975,7 @@ def rebin_conserves(case, ctx):
     def covers(b, src_edges_list):
         if isinstance(b, int):
             return True
-        levels = [b.levels[i] for i in range(dims)] if isinstance(b, pd.MultiIndex) else [b] * dims
+        levels = levels_of(b)
         return all(lv.left.min() <= e[0] and lv.right.max() >= e[-1] for lv, e in zip(levels, src_edges_list))
 
     def call(hh, b):
@@ -913,7 +985,9 @@ def rebin_conserves(case, ctx):
         lost = any(issubclass(x.category, RuntimeWarning) and "out of binning" in str(x.message) for x in w)
         return out, lost
 
-    levels1 = [b1] if dims == 1 else ([b1.levels[i] for i in range(dims)] if isinstance(b1, pd.MultiIndex) else [b1] * dims)
+    levels1 = levels_of(b1)
+    if isinstance(b1, pd.MultiIndex) and list(b1.names) != names:
+        ctx.label("target_levels_swapped")
     if any(one_interval_class(lv) for lv in levels1):
         ctx.label("F06_class")
         if ctx.known("F06"):
@@ -937,7 +1011,13 @@ def rebin_conserves(case, ctx):
             ctx.label("observation:no_warning_although_not_covered")
     if (r1.values[~np.isnan(r1.values)] < 0).any():
         raise Violation("negative class count after rebinning", bucket="rebin:negative")
-    if all(k == "identical" for k in k1) and case["drop_class"] is None and (dims == 1 or isinstance(b1, pd.MultiIndex)):
+    if isinstance(b1, pd.MultiIndex):
+        for n, lv in zip(names, levels1):
+            got_lv = set((iv.left, iv.right) for iv in r1.index.get_level_values(n))
+            if got_lv != set((iv.left, iv.right) for iv in lv):
+                raise Violation("level %r of the result carries the classes %r, the target binning for that level is %r"
+                                % (n, sorted(got_lv)[:4], [(iv.left, iv.right) for iv in lv][:4]), bucket="rebin:level_classes")
+    if all(k == "identical" for k in k1) and case["drop_class"] is None and not nested and (dims == 1 or isinstance(b1, pd.MultiIndex)):
         a = r1.reorder_levels(names) if dims == 2 else r1
         want = {key: v for key, v in zip(h0.index, h0.values)}
         for key, v in zip(a.index, a.values):
@@ -948,7 +1028,7 @@ def rebin_conserves(case, ctx):
     # composition
     if all(t is not None for t in case["target2"]) and not isinstance(b1, int) and cov and not case["nan_default"] and case["drop_class"] is None:
         b2 = binning(case["target2"])
-        levels2 = [b2] if dims == 1 else ([b2.levels[i] for i in range(dims)] if isinstance(b2, pd.MultiIndex) else [b2] * dims)
+        levels2 = levels_of(b2)
         if dims == 2 and not case["binning_as_multiindex"]:
             return          # one binning for both dimensions: the per-dimension composition premises do not both hold
         if any(one_interval_class(lv) for lv in levels2):
@@ -957,6 +1037,8 @@ def rebin_conserves(case, ctx):
                 return
         if not covers(b2, [t for t in case["target1"]]):
             return
+        if nested and case["kinds"][0][1] != "coarsening_of_first" and not set(nested["edges"]) <= set(case["target1"][0]):
+            return          # b1 refines the coarse classes only, not the nested ones: the composition is not exact
         direct, _ = call(h, b2)
         via, _ = call(r1, b2)
         ctx.label("composition")
